@@ -2,11 +2,16 @@ package c15
 
 import (
 	"fmt"
+	"sort"
 	"strings"
+
+	pr "github.com/benoitkugler/webrender/css/properties"
+	wtext "github.com/benoitkugler/webrender/text"
 
 	"wrverif/mp"
 	"wrverif/render"
 	"wrverif/res"
+	"wrverif/rng"
 	"wrverif/sx"
 )
 
@@ -81,8 +86,11 @@ func linksCorr(m *mp.Model, d Doc, rd *render.Doc, out *res.Result) {
 	}
 	I, M := strings.Join(il, "\n")+"\n--\n"+strings.Join(ia, "\n"), strings.Join(ml, "\n")+"\n--\n"+strings.Join(ma, "\n")
 	if I != M {
-		out.Add(res.Finding{Kind: "corr", Op: "corr:resolveLinks", Input: d.HTML, Impl: I, Model: M,
-			Reason: "resolveLinks (real) and the model differ", Seed: d.Seed})
+		// resolveLinks is in the proved domain (resolve_links_perm_invariant is about exactly this
+		// model): a difference means the real function is not the order-independent function the
+		// theorem is about — a failing input of the property, not only a broken correspondence
+		out.Add(res.Finding{Kind: "judge", Op: "judge:resolveLinks", Input: d.HTML, Impl: I, Model: M,
+			Reason: "the real resolveLinks and its model (proved independent of map order) differ on the anchors / links of this document", Key: "resolveLinks", Seed: d.Seed})
 	}
 }
 
@@ -94,7 +102,9 @@ func witnessCorr(m *mp.Model, out *res.Result) error {
 		{`(oof-stack 5 3)`, `(ok (0 5) (5 3))`},
 		{`(grid-span (fr 1 1 1) 2 ((0 0 1) (1 0 2) (2 2 1) (3 2 1)))`, `(ok () () ())`},
 		{`(grid-span (fr 1 1 1) 2 ((0 0 1) (2 2 1) (3 2 1) (1 0 2)))`, `(ok (1) () ())`},
-		{`(lang-quotes "fr_CHx" (("fr" "a") ("fr_CH" "b")))`, `(ok "a")`},
+		{`(lang-quotes-before-fix "fr_CHx" (("fr" "a") ("fr_CH" "b")))`, `(ok "a")`},
+		{`(lang-quotes-before-fix "fr_CHx" (("fr_CH" "b") ("fr" "a")))`, `(ok "b")`},
+		{`(lang-quotes "fr_CHx" (("fr" "a") ("fr_CH" "b")))`, `(ok "b")`},
 		{`(lang-quotes "fr_CHx" (("fr_CH" "b") ("fr" "a")))`, `(ok "b")`},
 		{`(resolve-links-before-fix (pages (("a" "1") ("b" "2"))) (links ()))`, `(ok (links ()) (anchors (("a" "1") ("b" "2"))) (names "a" "b"))`},
 		{`(resolve-links-before-fix (pages (("b" "2") ("a" "1"))) (links ()))`, `(ok (links ()) (anchors (("b" "2") ("a" "1"))) (names "b" "a"))`},
@@ -111,6 +121,63 @@ func witnessCorr(m *mp.Model, out *res.Result) error {
 		out.Hit("corr:witness")
 		if a.String() != c[1] {
 			out.Add(res.Finding{Kind: "corr", Op: "corr:witness", Input: c[0], Model: a.String(), Impl: c[1], Reason: "the driver's answer for a negation witness changed"})
+		}
+	}
+	return nil
+}
+
+// quotesCorr: L1 correspondence for the model of text.GetLangQuotes.  The model gets the real table
+// (hook VerifC15LangQuotes) in Go's map order and must choose the same quotes as the real function
+// for exact keys, keys with a suffix (several keys may be prefixes), unrelated and empty languages.
+// Like resolveLinks this is in the proved domain (lang_quotes_perm_invariant): a difference is a
+// judge finding.
+func quotesCorr(m *mp.Model, r *rng.R, n int, out *res.Result) error {
+	table := wtext.VerifC15LangQuotes()
+	enc := func(v [2]pr.Strings) string { return strings.Join(v[0], ",") + "|" + strings.Join(v[1], ",") }
+	var keys []string
+	for k := range table {
+		keys = append(keys, k)
+	}
+	sort.Strings(keys)
+	for i := 0; i < n; i++ {
+		lang := keys[r.Intn(len(keys))]
+		if r.P(1, 3) { // the keys that have a shorter key as prefix (the KF15-4 situation)
+			lang = rng.Pick(r, "bs_Cyrl", "el_POLYTON", "fr_CA", "fr_CH", "it_CH", "kab", "kkj", "oc_ES", "sr_Latn", "ti_ER")
+		}
+		switch r.Intn(5) {
+		case 0: // exact key
+		case 1, 2:
+			lang += rng.Pick(r, "x", "-x", "_CH", "_Latn", "b", "_CHx", "yle")
+		case 3:
+			lang = rng.Pick(r, "", "zz", "q", "x-klingon", "FR", "Fr_ch")
+		case 4:
+			if len(lang) > 1 {
+				lang = lang[:len(lang)-1]
+			}
+		}
+		var es []sx.X
+		for k, v := range table { // map order on purpose
+			es = append(es, sx.L(sx.S(k), sx.S(enc(v))))
+		}
+		a, err := m.Ask(sx.L(sx.A("lang-quotes"), sx.S(lang), sx.L(es...)))
+		if err != nil {
+			return err
+		}
+		o, c := wtext.GetLangQuotes(lang)
+		impl := enc([2]pr.Strings{o, c})
+		out.Hit("corr:langQuotes")
+		nPref := 0
+		for _, k := range keys {
+			if k != "" && k != lang && strings.HasPrefix(lang, k) {
+				nPref++
+			}
+		}
+		if nPref >= 2 {
+			out.Hit("corr:langQuotes:two-prefix-keys")
+		}
+		if a.Head() != "ok" || len(a.Xs) != 2 || a.Xs[1].S != impl {
+			out.Add(res.Finding{Kind: "judge", Op: "judge:langQuotes", Input: lang, Impl: impl, Model: a.String(),
+				Reason: "text.GetLangQuotes and its model (proved independent of map order) choose different quotes for this language", Key: "langQuotes"})
 		}
 	}
 	return nil
